@@ -275,6 +275,15 @@ thread_local! {
 fn unbounded() -> bool {
     UNBOUNDED.with(|c| c.get())
 }
+thread_local! {
+    /// readiness variant: the layers that queue or pace callers are configured tight (bulkhead
+    /// with one slot and unbounded waiting, rate limiter with 2 permits per 5 ms and a long
+    /// timeout), so that callers wait INSIDE the layer between the readiness check and the call
+    static TIGHT: std::cell::Cell<bool> = const { std::cell::Cell::new(false) };
+}
+fn tight() -> bool {
+    TIGHT.with(|c| c.get())
+}
 
 /// Mode 0: non-triggering configuration (transparency). Mode 1: configuration in which retries,
 /// hedges and reconnects happen (readiness). Mode 2: configuration that produces several kinds of
@@ -294,6 +303,8 @@ where
                 b.max_concurrent_calls(1).reject_when_full()
             } else if mode == 0 && unbounded() {
                 b.max_concurrent_calls(64).max_wait_duration(Duration::MAX)
+            } else if mode == 1 && tight() {
+                b.max_concurrent_calls(1)
             } else {
                 b.max_concurrent_calls(64)
             };
@@ -313,9 +324,18 @@ where
         1 => {
             use tower_resilience_ratelimiter::{RateLimiterLayer, RateLimiterServiceError};
             let mut b = RateLimiterLayer::builder()
-                .limit_for_period(if mode == 2 { 2 } else { 1000 })
-                .refresh_period(Duration::from_millis(if mode == 2 { 20 } else { 1000 }))
-                .timeout_duration(if mode == 0 && unbounded() { Duration::MAX } else { Duration::ZERO });
+                // readiness sub-check (mode 1), tight variant: a small window and a long timeout, so
+                // that callers are admitted after waiting for a later window (a waiter that finds
+                // the later window taken as well is rejected: a legitimate outcome there)
+                .limit_for_period(if mode == 2 || (mode == 1 && tight()) { 2 } else { 1000 })
+                .refresh_period(Duration::from_millis(if mode == 2 { 20 } else if mode == 1 && tight() { 5 } else { 1000 }))
+                .timeout_duration(if mode == 0 && unbounded() {
+                    Duration::MAX
+                } else if mode == 1 && tight() {
+                    Duration::from_secs(10)
+                } else {
+                    Duration::ZERO
+                });
             for l in &listeners {
                 let (a, c, d) = (l.clone(), l.clone(), l.clone());
                 b = b
@@ -605,6 +625,9 @@ pub enum C20Case {
         fail_from: Option<u8>,
         /// per request: (instance 0..3, gap ms, first attempt fails with the layer's trigger code, latency)
         requests: Vec<(u8, u8, bool, u8)>,
+        /// bulkhead / rate limiter configured so that callers wait inside the layer
+        #[serde(default)]
+        tight: bool,
     },
     Listeners {
         /// index into LISTENER_LAYERS
@@ -641,9 +664,9 @@ fn case_strategy(_tier: Tier) -> BoxedStrategy<C20Case> {
         prop_oneof![3 => Just(None), 1 => (0u8..8).prop_map(Some)],
         prop_oneof![2 => Just(0u8), 1 => 1u8..=8],
         prop::collection::vec((0u8..3, 0u8..=5, any::<bool>(), prop_oneof![Just(0u8), Just(10u8), 0u8..=12]), 1..=6),
-        prop_oneof![3 => Just(None), 1 => (0u8..=30).prop_map(Some)],
+        (prop_oneof![3 => Just(None), 1 => (0u8..=30).prop_map(Some)], prop::bool::weighted(0.4)),
     )
-        .prop_map(|(layer, inner, pend_mask, fail_inst, cool_ms, requests, fail_from)| C20Case::Readiness {
+        .prop_map(|(layer, inner, pend_mask, fail_inst, cool_ms, requests, (fail_from, tight))| C20Case::Readiness {
             layer,
             inner,
             pend_mask,
@@ -651,6 +674,7 @@ fn case_strategy(_tier: Tier) -> BoxedStrategy<C20Case> {
             cool_ms,
             fail_from,
             requests,
+            tight,
         });
     let listeners = (
         0u8..LISTENER_LAYERS.len() as u8,
@@ -849,7 +873,7 @@ async fn readiness(
     // a serialising inner service (Buffer, cooling instances) queues the calls: every request may
     // cause up to four inner calls (attempts, hedges), each holding the instance for cool + latency
     let max_lat = requests.iter().map(|r| r.3 as u64).max().unwrap_or(0);
-    let horizon = acc + 120 + n as u64 * 4 * (cool_ms as u64 + max_lat);
+    let horizon = acc + 120 + n as u64 * 4 * (cool_ms as u64 + max_lat) + if tight() { n as u64 * 4 * 5 } else { 0 };
     let mut task: Vec<Option<usize>> = vec![None; n];
     let mut skipped = vec![false; n];
     let mut multi_call_instance = false;
@@ -987,6 +1011,10 @@ async fn readiness(
             Ev::Resolve { task, out, .. } if *task == tk => Some(out.clone()),
             _ => None,
         });
+        if tight() && has(1) && resolve.is_some() {
+            // rejections by the tight rate limiter are legitimate; the contract checks count
+            continue;
+        }
         if has(2) && resolve.is_some() {
             // with the breaker cycling, rejections (and what outer layers make of them) are
             // legitimate outcomes; the contract checks above are what this sub-check is about
@@ -1192,7 +1220,9 @@ pub fn run_case(case: &C20Case) -> Report {
             cool_ms,
             fail_from,
             requests,
+            tight,
         } => {
+            TIGHT.with(|c| c.set(*tight));
             let (v, log, nontrivial) = sim::run_case(readiness(
                 *layer as usize,
                 *inner,
@@ -1202,10 +1232,14 @@ pub fn run_case(case: &C20Case) -> Report {
                 *fail_from,
                 requests,
             ));
+            TIGHT.with(|c| c.set(false));
             for m in v {
                 r.fail(m);
             }
             r.class("readiness");
+            if *tight {
+                r.class("readiness_callers_wait_inside_bulkhead_or_rate_limiter");
+            }
             r.class(["inner_strict", "inner_tower_buffer", "inner_tower_concurrency_limit"][*inner as usize]);
             if log.iter().any(|e| matches!(e, Ev::Note { kind: "strict_ready_err", .. })) {
                 r.class("inner_readiness_error");
